@@ -473,7 +473,12 @@ func genTTMLDoc(r *rng) []byte {
 				if r.bool() {
 					txt = strings.ReplaceAll(txt, "é", []string{"&#233;", "&#xE9;"}[r.intn(2)])
 				}
-				b.WriteString(txt + "</" + ns.el + "p>")
+				b.WriteString(txt)
+				if r.bool() {
+					// the text starts on the line of the <p> tag and goes on, after a line break, on an indented line
+					b.WriteString("<" + ns.el + "br/>" + nl(4) + xmlEsc("tail "+ttmlWord(r)+"x"))
+				}
+				b.WriteString("</" + ns.el + "p>")
 				continue
 			}
 			nLines := 1 + r.intn(3)
@@ -638,6 +643,8 @@ func init() {
 			c.do("ttml.write " + ind + " " + canonSubs(s))
 			c.count("generated")
 		}
+		c.do("ttml.write D " + canonSubs(largePlainSubs(r, 800)))
+		c.count("large")
 	}}
 }
 
